@@ -295,7 +295,9 @@ class RunningOrder(MosFile):
         excluding any empty paragraphs or technical notes in brackets.
         """
         return list(
-            itertools.chain.from_iterable(story.script for story in self.stories)
+            itertools.chain.from_iterable(
+                Story(story_tag).script for story_tag in self.base_tag.findall('story')
+            )
         )
 
     @property
@@ -307,7 +309,9 @@ class RunningOrder(MosFile):
         tag). Unlike :attr:`script`, this does not exclude empty paragraph tags.
         """
         return list(
-            itertools.chain.from_iterable(story.body for story in self.stories)
+            itertools.chain.from_iterable(
+                Story(story_tag).body for story_tag in self.base_tag.findall('story')
+            )
         )
 
     def _find_story(self, story_id: str) -> Tuple[Element, int]:
